@@ -794,3 +794,89 @@ Definition fc_int31max : float := 2147483647%float.
 Definition fc_half : float := 0.5%float.
 Definition fc_lit (z : Z) : float := float_of_Z z.
 Definition fc_frac (num den : Z) : float := PrimFloat.div (float_of_Z num) (float_of_Z den).
+
+(* ====================================================================== *)
+(** * the err protocol through the dispatcher: every built-in, every program *)
+Definition hcall_of (name : str) (args : list val) : hcall :=
+  if str_eqb name (s_ "str2num") then match args with [VStr s] => HStr2Num s | _ => HOther end
+  else if str_eqb name (s_ "str2bool") then match args with [VStr s] => HStr2Bool s | _ => HOther end
+  else HOther.
+
+Lemma call_builtin_err_other o name args st :
+  str_eqb name (s_ "str2num") = false -> str_eqb name (s_ "str2bool") = false ->
+  b_err (snd (call_builtin o name args st)) = b_err st.
+Proof.
+  intros N1 N2. unfold call_builtin.
+  destruct (find _ _) as [sg|]; [|reflexivity].
+  destruct (negb _); [reflexivity|].
+  unfold name_is.
+  repeat match goal with
+         | |- context [if str_eqb name ?l then _ else _] =>
+             let E := fresh "E" in destruct (str_eqb name l) eqn:E
+         end;
+    try congruence; try reflexivity;
+    repeat match goal with
+           | |- context [match ?x with _ => _ end] => destruct x
+           end; try reflexivity.
+Qed.
+
+Lemma call_builtin_err_conv o (isnum : bool) args st :
+  let name := if isnum then s_ "str2num" else s_ "str2bool" in
+  b_err (snd (call_builtin o name args st)) = hstep o (b_err st) (hcall_of name args).
+Proof.
+  destruct isnum; cbv zeta.
+  - destruct args as [|v [|w r]]; [vm_compute; reflexivity | | destruct v; vm_compute; reflexivity].
+    destruct v; try (vm_compute; reflexivity).
+    unfold hcall_of. rewrite str_eqb_refl. cbn [hstep].
+    destruct st as [e0 ins]. unfold call_builtin. cbv -[str2num]. destruct (str2num o s e0). reflexivity.
+  - destruct args as [|v [|w r]]; [vm_compute; reflexivity | | destruct v; vm_compute; reflexivity].
+    destruct v; try (vm_compute; reflexivity).
+    unfold hcall_of. replace (str_eqb (s_ "str2bool") (s_ "str2num")) with false by (vm_compute; reflexivity).
+    rewrite str_eqb_refl. cbn [hstep].
+    destruct st as [e0 ins]. unfold call_builtin. cbv -[str2bool]. destruct (str2bool o s e0). reflexivity.
+Qed.
+
+(* what any built-in call does to err/errmsg *)
+Lemma call_builtin_err o name args st :
+  b_err (snd (call_builtin o name args st)) = hstep o (b_err st) (hcall_of name args).
+Proof.
+  destruct (str_eqb name (s_ "str2num")) eqn:E1.
+  - apply str_eqb_eq in E1. subst name. apply (call_builtin_err_conv o true).
+  - destruct (str_eqb name (s_ "str2bool")) eqn:E2.
+    + apply str_eqb_eq in E2. subst name. apply (call_builtin_err_conv o false).
+    + unfold hcall_of. rewrite E1, E2. apply call_builtin_err_other; assumption.
+Qed.
+
+Definition calls_hist (calls : list (str * list val)) : list hcall :=
+  map (fun c => hcall_of (fst c) (snd c)) calls.
+
+(* in a program that is any sequence of built-in calls, the err state observed
+   after the i-th executed call is the history's *)
+Lemma run_calls_err o ff calls : forall st t i cr,
+  nth_error (fst (fst (fst (run_calls o ff calls st t)))) i = Some cr ->
+  c_err cr = hrun o (b_err st) (firstn (S i) (calls_hist calls)).
+Proof.
+  induction calls as [|[name args] rest IH]; intros st t i cr; simpl.
+  - destruct i; discriminate.
+  - pose proof (call_builtin_err o name args st) as HE.
+    destruct (call_builtin o name args st) as [[r0 effs] st']. simpl in HE.
+    destruct (account_test ff (str_eqb name (s_ "test")) r0 t) as [r t'].
+    destruct (stops r).
+    + simpl. destruct i as [|i]; [|destruct i; discriminate].
+      intros [= <-]. simpl. exact HE.
+    + specialize (IH st' t').
+      destruct (run_calls o ff rest st' t') as [[[crs effs'] t''] stop]. simpl in *.
+      destruct i as [|i].
+      * intros [= <-]. simpl. exact HE.
+      * intros H. rewrite (IH i cr H). rewrite HE. reflexivity.
+Qed.
+
+(* … hence err/errmsg after the i-th call describe the last conversion among
+   the first i+1 calls (set on failure, reset on success) *)
+Lemma run_calls_err_protocol o ff calls st t i cr :
+  nth_error (fst (fst (fst (run_calls o ff calls st t)))) i = Some cr ->
+  c_err cr = match last_conv (firstn (S i) (calls_hist calls)) with
+             | Some c => documented_state o c
+             | None => b_err st
+             end.
+Proof. intros H. rewrite (run_calls_err o ff calls st t i cr H). apply err_protocol. Qed.
